@@ -36,6 +36,54 @@ partial def structLoop (h : IO.FS.Stream) (out : IO.FS.Stream) (s : Struct.PSt) 
   out.putStrLn o
   structLoop h out s'
 
+partial def readAll (h : IO.FS.Stream) (acc : Array String) : IO (Array String) := do
+  let line ← h.getLine
+  if line.isEmpty then return acc
+  readAll h (acc.push line)
+
+/-- S next to M_struct: one line of the script on the specification (values only; answers are not used here) -/
+def specStep (st : Spec.St) (matched : Bool) (w : List String) : Spec.St :=
+  if st.dead then st else
+  match w with
+  | ["begin"] => if matched then { st with depth := st.depth + 1 } else st
+  | ["end"] =>
+    if matched then
+      let st := { st with depth := st.depth - 1 }
+      if st.depth == 0 then (Spec.closeTxn st).1 else st
+    else st
+  | w => (Spec.stmt st w).1
+
+/-- L-struct on a whole script: M_struct is told, before every line, what every cell of S is worth after that line
+    (driver-internal line `cellvals`), and which cell of S the selector of a switch is (`@id`) -/
+def structSeg (lines : List String) : List String :=
+  let ws := (lines.map Spec.splitWords).toArray
+  let matched := Spec.matchBrackets ws
+  let (_, _, outs) := (List.range ws.size).foldl (fun (acc : Spec.St × Struct.PSt × Array String) i =>
+    let (st, p, outs) := acc
+    let w := ws[i]!
+    let line := " ".intercalate w
+    let line := match w with
+      | "switchs" :: _ :: sel :: _ | "switchc" :: _ :: sel :: _ =>
+        (match st.cell sel with | some id => line ++ s!" @{id}" | none => line)
+      | _ => line
+    let st := specStep st matched[i]! w
+    let vals := (List.range st.sp.defs.size).filterMap fun c => (st.sp.val c).map fun v => s!"{c}:{v}"
+    let p := (Struct.step p (" ".intercalate ("cellvals" :: vals))).1
+    let (p, o) := Struct.step p line
+    (st, p, outs.push o)) (({} : Spec.St), ({} : Struct.PSt), #[])
+  outs.toList
+
+def structMain (stdin stdout : IO.FS.Stream) : IO Unit := do
+  let lines ← readAll stdin #[]
+  let mut cur : Array String := #[]
+  for l in lines do
+    if l.trimAscii.toString == "---" then
+      for o in structSeg cur.toList do stdout.putStrLn o
+      stdout.putStrLn "---"
+      cur := #[]
+    else cur := cur.push l
+  for o in structSeg cur.toList do stdout.putStrLn o
+
 partial def schedApiLoop (h : IO.FS.Stream) (out : IO.FS.Stream) (s : SchedApi.St) : IO Unit := do
   let line ← h.getLine
   if line.isEmpty then return ()
@@ -64,11 +112,6 @@ partial def concLoop (h : IO.FS.Stream) (out : IO.FS.Stream) : IO Unit := do
   out.putStrLn (if l == "---" then "---" else if l.startsWith "conc" then concLine l else "bad-op")
   concLoop h out
 
-partial def readAll (h : IO.FS.Stream) (acc : Array String) : IO (Array String) := do
-  let line ← h.getLine
-  if line.isEmpty then return acc
-  readAll h (acc.push line)
-
 def specMain (stdin stdout : IO.FS.Stream) : IO Unit := do
   let lines ← readAll stdin #[]
   let mut cur : Array String := #[]
@@ -89,6 +132,6 @@ def main (args : List String) : IO UInt32 := do
   | ["spec"] => specMain stdin stdout; return 0
   | ["txn"] => txnLoop stdin stdout {}; return 0
   | ["conc"] => concLoop stdin stdout; return 0
-  | ["struct"] => structLoop stdin stdout {}; return 0
+  | ["struct"] => structMain stdin stdout; return 0
   | ["schedapi"] => schedApiLoop stdin stdout {}; return 0
   | _ => IO.eprintln "usage: driver gc|node|txn|spec|conc|struct|schedapi < script"; return 2
